@@ -100,7 +100,10 @@ def container_info(repo, name, rel, pattern, failures):
     push = bool(re.search(r"conditional_arg_size_cache\s*\.\s*push_back\s*\(", size_b))
     assign = bool(re.search(r"conditional_arg_size_cache\s*\.\s*assign\s*\(", size_b))
     readback = bool(re.search(r"conditional_arg_size_cache\s*\[\s*conditional_arg_size_cache_index\s*\+\+\s*\]", enc_b))
-    if not (push == assign == readback):
+    # the element count goes through the size cache either as placeholder + assign (forward_list, which has no size())
+    # or as one push of a count known up front; either way the encode pass must read back exactly what was pushed.
+    # Whether a family *should* take a slot is C11's business (obligation alloc_count_slots), not a broken tie.
+    if push != readback or (assign and not push):
         failures.append("std codec %s: cached element count inconsistent (push=%s assign=%s read=%s)" % (
             name, push, assign, readback))
     info["pushCount"] = push
@@ -213,16 +216,54 @@ def extract(repo, failures):
         if cond and cond.strip().startswith("!std::conjunction_v"):
             for tr, arg in re.findall(r"(?:std::)?(is_\w+)\s*<\s*remove_cvref_t<Args>\s*(?:,\s*([^>]+))?>", cond):
                 exempt.append(tr + (":" + arg.strip() if arg else ""))
-        else:
-            failures.append("Codec.h: clear condition `!std::conjunction_v<std::disjunction<…>...>` not found")
+        # (no such condition: `clearExempt` stays empty and `clearsCache` false — obligation codec_clear_rule breaks;
+        #  not an extraction failure, which would alarm every property)
         clears = bool(re.search(r"\)\s*\{\s*conditional_arg_size_cache\.clear\(\);\s*\}", cs))
     out["clearExempt"] = exempt
     out["clearsCache"] = clears
-    enc_all = func_body(cd, r"void\s+encode\s*\(\s*std::byte\*&\s*buffer,\s*SizeCacheVector\s+const&\s*conditional_arg_size_cache,\s*"
-                            r"Args\s+const&\.\.\.\s*args\s*\)\s*\{")
+    # the clear() sits at the START of the size pass: before the accumulator and before any argument is sized
+    # (a statement dropped between the two passes must leave nothing behind: C04_drop_leaves_nothing)
+    at_start = False
+    if cs is not None and clears:
+        i_clear = cs.find("conditional_arg_size_cache.clear()")
+        firsts = [i for i in (cs.find("total_sum"), cs.find("compute_encoded_size(")) if i >= 0]
+        at_start = bool(firsts) and 0 <= i_clear < min(firsts)
+    out["clearAtStart"] = at_start
+    em = re.search(r"void\s+encode\s*\(\s*std::byte\*&\s*buffer,\s*(?:QUILL_MAYBE_UNUSED\s+)?SizeCacheVector\s*(const)?\s*&\s*"
+                   r"conditional_arg_size_cache,\s*Args\s+const&\.\.\.\s*args\s*\)\s*\{", cd)
+    enc_all = None
+    if em:
+        try:
+            enc_all = body_after(cd, em.end() - 1)
+        except ValueError:
+            enc_all = None
     out["encodeStartsAtZero"] = bool(enc_all and re.search(r"conditional_arg_size_cache_index\s*\{\s*0\s*\}", enc_all))
+    # the encode pass only reads the cache: `const&` parameter, no clear()/push_back()/assign() in its body
+    out["encodeCacheConst"] = bool(em and em.group(1))
+    out["encodeMutatesCache"] = bool(enc_all is None or re.search(r"conditional_arg_size_cache\s*\.\s*(clear|push_back|assign)\s*\(", enc_all))
     if enc_all is None:
         failures.append("Codec.h: detail::encode(buffer, cache, args...) not found")
+
+    # ---- the unbounded queue between log calls (C11): does a drained queue publish the reader position? -----------
+    bq = strip_cpp_comments(read(repo, "include/quill/core/BoundedSPSCQueue.h"))
+    uq = strip_cpp_comments(read(repo, "include/quill/core/UnboundedSPSCQueue.h"))
+    cr = func_body(bq, r"void\s+commit_read\s*\(\s*\)\s*(?:noexcept)?\s*\{")
+    drain = False
+    if cr is not None:
+        cond = re.search(r"if\s*\((.*?)\)\s*\{", cr, re.S)
+        c = re.sub(r"\s", "", cond.group(1)) if cond else ""
+        # an unguarded disjunct `_reader_pos == _writer_pos_cache` next to the batch test
+        drain = bool(re.search(r">=_bytes_per_batch\)\|\|\(?(_reader_pos==_writer_pos_cache|_writer_pos_cache==_reader_pos)\)?$", c))
+    ucr = func_body(uq, r"void\s+commit_read\s*\(\s*\)\s*(?:noexcept)?\s*\{")
+    # ... and the unbounded queue hands commit_read straight to its node's bounded queue
+    through = bool(ucr is not None and re.sub(r"\s", "", ucr) == "_consumer->bounded_queue.commit_read();")
+    out["drainPublishes"] = drain and through
+    m = re.search(r"reader_store_percent\s*=\s*(\d+)", bq)
+    out["readerBatchPercent"] = int(m.group(1)) if m else 0
+    brd = strip_cpp_comments(read(repo, "include/quill/backend/BackendWorker.h"))
+    rd = func_body(brd, r"size_t\s+_read_and_decode_frontend_queue\s*\([^)]*\)\s*\{") or ""
+    # one commit_read per pass, after the loop, whenever something was read
+    out["commitReadPerPass"] = bool(re.search(r"while\s*\(.*?\)\s*;\s*if\s*\(\s*total_bytes_read\s*!=\s*0\s*\)\s*\{\s*frontend_queue\.commit_read\(\);", rd, re.S))
 
     # ---- std/ containers -----------------------------------------------------------------------------
     kinds = {}
@@ -307,6 +348,14 @@ def render(out):
     L.append("def clearExempt : List String := [%s]" % ", ".join(lean_str(x) for x in exempt))
     L.append("def clearsCache : Bool := %s" % lean_bool(clears))
     L.append("def encodeStartsAtZero : Bool := %s" % lean_bool(out["encodeStartsAtZero"]))
+    L.append("/-- where the `clear()` sits and whether `detail::encode` can change the cache -/")
+    L.append("def clearAtStart : Bool := %s" % lean_bool(out["clearAtStart"]))
+    L.append("def encodeCacheConst : Bool := %s" % lean_bool(out["encodeCacheConst"]))
+    L.append("def encodeMutatesCache : Bool := %s" % lean_bool(out["encodeMutatesCache"]))
+    L.append("/-- `commit_read` publishes the reader position of a drained (unbounded) queue; batch threshold in percent -/")
+    L.append("def drainPublishes : Bool := %s" % lean_bool(out["drainPublishes"]))
+    L.append("def readerBatchPercent : Nat := %d" % out["readerBatchPercent"])
+    L.append("def commitReadPerPass : Bool := %s" % lean_bool(out["commitReadPerPass"]))
     L.append("/-- quill/std/*.h: element-count prefix, arithmetic shortcuts, cached element count, pair elements -/")
     L.append("def kindTable : List (String × Codec.KindInfo) := [")
     rows = []
@@ -350,6 +399,8 @@ def _neutral():
         "framing": dict(lvlCounted=False, lvlWritten=False, lvlRead=False, hdrPtrsWritten=0, hdrPtrsRead=0,
                         sameSizeReservedCommitted=False),
         "unformattedEvents": [], "macroEvents": [], "clearExempt": [], "clearsCache": False, "encodeStartsAtZero": False,
+        "clearAtStart": False, "encodeCacheConst": False, "encodeMutatesCache": True, "drainPublishes": False,
+        "readerBatchPercent": 0, "commitReadPerPass": False,
         "kinds": {name: dict(k0) for name, _, _ in CONTAINERS},
         "directFormatCalls": 0, "directPushes": 0, "deferredFormatCalls": 0, "nonpodSlackSites": 0,
         "printable": dict(lo=0, hi=0, extra=[]), "escape": dict(hex="", prefix=[], nibbles=[]), "sanitizeGuard": False,
